@@ -886,6 +886,60 @@ func gen(g *hx.Gen) {
 		emitRead(g, st, magics[0], fr)
 	}
 
+	// 4b. the fixed-layout main-net decoders (modelled in Lean: Model/P2PMsg.lean): valid payloads, every
+	//     truncation of them, trailing bytes, count fields at and above their limits
+	le32 := func(v uint32) []byte { b := make([]byte, 4); binary.LittleEndian.PutUint32(b, v); return b }
+	le64 := func(v uint64) []byte { b := make([]byte, 8); binary.LittleEndian.PutUint64(b, v); return b }
+	for _, cmd := range []string{"verack", "getaddr", "mempool", "filterclear", "ping", "pong", "version", "inv", "getdata",
+		"notfound", "getblocks", "addr", "filteradd", "filterload", "txfilter"} {
+		max := int(instances["elanet"][cmd]().MaxLength())
+		var cands [][]byte
+		for k := 0; k < g.N(4, 30); k++ {
+			if p := constructed(r, "elanet", cmd); p != nil {
+				cands = append(cands, p)
+				if len(p) > 0 {
+					cands = append(cands, p[:r.Intn(len(p))], p[:len(p)-1])
+				}
+				cands = append(cands, append(append([]byte(nil), p...), r.Bytes(1+r.Intn(3))...))
+			}
+		}
+		switch cmd {
+		case "inv", "getdata", "notfound":
+			for _, c := range []uint32{0, 1, 2, msg.MaxInvPerMsg, msg.MaxInvPerMsg + 1, math.MaxUint32} {
+				cands = append(cands, append(le32(c), r.Bytes(r.Pick(0, 35, 36, 72, 80))...))
+			}
+		case "getblocks":
+			for _, c := range []uint32{0, 1, msg.MaxBlockLocatorsPerMsg, msg.MaxBlockLocatorsPerMsg + 1} {
+				cands = append(cands, append(le32(c), r.Bytes(r.Pick(0, 31, 32, 63, 64, 65))...))
+			}
+		case "addr":
+			for _, c := range []uint64{0, 1, 2, msg.MaxAddrPerMsg, msg.MaxAddrPerMsg + 1, 1 << 40} {
+				cands = append(cands, append(le64(c), r.Bytes(r.Pick(0, 33, 34, 68, 70))...))
+			}
+		case "version":
+			for _, v := range []uint32{0, pact.CRProposalVersion - 1, pact.CRProposalVersion, math.MaxUint32} {
+				base := append(le32(v), r.Bytes(31)...)
+				cands = append(cands, base, base[:34], append(append([]byte(nil), base...), 3, 'a', 'b', 'c'),
+					append(append([]byte(nil), base...), 3, 'a', 'b'), append(append([]byte(nil), base...), 0xfd, 3, 0, 'a', 'b', 'c'),
+					append(append([]byte(nil), base...), 0xfd, 0xfd, 0))
+			}
+		case "filteradd":
+			cands = append(cands, append([]byte{0xfd, 0x08, 0x02}, r.Bytes(520)...), append([]byte{0xfd, 0x09, 0x02}, r.Bytes(520)...),
+				append([]byte{0xfc}, r.Bytes(251)...), append([]byte{0xfc}, r.Bytes(252)...), []byte{0xfd, 0x10, 0x00}, []byte{0xfe, 0, 0, 1, 0})
+		case "txfilter":
+			cands = append(cands, []byte{1}, []byte{1, 0}, []byte{1, 2, 9}, []byte{1, 2, 9, 9}, append([]byte{0, 0xfd, 0x50, 0xc3}, r.Bytes(100)...),
+				append([]byte{0, 0xfd, 0x51, 0xc3}, r.Bytes(100)...))
+		case "ping", "pong":
+			cands = append(cands, r.Bytes(7), r.Bytes(8))
+		}
+		for _, p := range cands {
+			if len(p) > max || len(p) > 65536 {
+				continue
+			}
+			emitRead(g, "elanet", magics[0], frame(magics[0], cmd, p))
+		}
+	}
+
 	// 5. real messages written by WriteMessage over a net.Pipe and read back through the stack
 	for _, st := range stacks {
 		for _, cmd := range sortedCmds(st) {
